@@ -320,7 +320,7 @@ def run_shard(ctx):
     ctx.sample({"needles_for_an_EC_key": [n for n, _ in needles_of(gen.new_ec("P-256"))], "outputs": ["as_dict(private=False)", "KeySet.as_dict(private=False)", "PEM/DER public", "thumbprint", "kid", "token segments", "epk"]})
 
 
-REQUIRE = [("odd_public_keys", 16, "public keys whose JWK holds private-named members"), ("outputs_scanned", 1500, "outputs scanned"), ("epk_headers_seen", 10, "epk headers observed"),
+REQUIRE = [("odd_public_keys", 16, "public keys whose JWK holds private-named members"), ("outputs_scanned", 600, "outputs scanned"), ("epk_headers_seen", 10, "epk headers observed"),
            ("private_export_from_public_key", 50, "private exports requested from public keys"), ("scanner_selftest_hits", 3, "planted leaks found")]
 
 
